@@ -68,10 +68,12 @@ structure U2FOK (env : Prog.Env) (o : AttObj) (h : Bytes) (res : Result) : Prop 
 
 /-! tpm -/
 structure TpmOK (env : Prog.Env) (o : AttObj) (h : Bytes) (res : Result) : Prop where
-  body : ∃ der c rest ciRaw ci paRaw pa d acd k pk paEnc nameAlg nameVal hashId ciEnc,
+  body : ∃ der c rest hashes ciRaw ci paRaw pa d acd k pk paEnc nameAlg nameVal hashId ciEnc,
     X5c env o.stmt ((der, c) :: rest) ∧
-    stmtBytes o.stmt "certInfo" = some ciRaw ∧ env.answer (.tpmCertInfo ciRaw) = .certInfo ci ∧
-    stmtBytes o.stmt "pubArea" = some paRaw ∧ env.answer (.tpmPubArea paRaw) = .pubArea pa ∧
+    -- certInfo and pubArea decode as TPMS_ATTEST / TPMT_PUBLIC (`Model/Tpm2`, go-tpm's codec), given the hash algorithms linked in
+    hashes = Prog.run env askHashes ∧
+    stmtBytes o.stmt "certInfo" = some ciRaw ∧ Tpm2.certInfo hashes ciRaw = some ci ∧
+    stmtBytes o.stmt "pubArea" = some paRaw ∧ Tpm2.pubArea paRaw = some pa ∧
     Attested o d acd ∧ CredKey acd k ∧
     -- the key in pubArea is the credential public key
     pa.key = some pk ∧ pk ≠ .other ∧ pk = k.material ∧
@@ -80,7 +82,7 @@ structure TpmOK (env : Prog.Env) (o : AttObj) (h : Bytes) (res : Result) : Prop 
     env.answer (.hash (Spec.Cose.hashOf (getAlgorithm o.stmt)) (o.authData ++ h)) = .bytes ci.extraData ∧
     -- certified name = digest of pubArea under pubArea's name algorithm
     pa.encoded = some paEnc ∧ ci.hasCertifyInfo = true ∧ ci.name = .digest nameAlg nameVal ∧ nameAlg = pa.nameAlg ∧
-    env.answer (.tpmAlgHash nameAlg) = .nat hashId ∧ env.answer (.hash hashId paEnc) = .bytes nameVal ∧
+    Tpm2.hashOf hashes nameAlg = some hashId ∧ env.answer (.hash hashId paEnc) = .bytes nameVal ∧
     -- sig is a signature by the AIK certificate over certInfo
     ci.encoded = some ciEnc ∧ CertSigOK env der (getAlgorithm o.stmt) ciEnc (getSignature o.stmt) ∧
     -- AIK certificate requirements (§8.3.1)
